@@ -1,0 +1,67 @@
+"""
+Verification hook (not part of sismic's behaviour).
+
+Does nothing unless the environment variable SISMIC_VERIF is set to a non-empty value AND
+SISMIC_VERIF_TRACE names a file: then every Interpreter appends one JSON line per public call
+(creation, queued event, execute_once) to that file, so that recorded executions can be checked
+against an external specification. No sismic code path depends on this module when the guard is off.
+"""
+import json
+import os
+import threading
+
+ON = bool(os.environ.get('SISMIC_VERIF')) and bool(os.environ.get('SISMIC_VERIF_TRACE'))
+
+_lock = threading.Lock()
+_counter = [0]
+
+
+def new_id() -> int:
+    with _lock:
+        _counter[0] += 1
+        return _counter[0]
+
+
+def emit(record: dict) -> None:
+    if not ON:
+        return
+    try:
+        line = json.dumps(record, default=repr)
+    except Exception:  # pragma: no cover
+        return
+    with _lock:
+        with open(os.environ['SISMIC_VERIF_TRACE'], 'a') as f:
+            f.write(line + '\n')
+
+
+def describe(statechart) -> dict:
+    """Structure of a statechart, through its public queries only."""
+    states = []
+    for name in statechart.states:
+        state = statechart.state_for(name)
+        states.append({
+            'name': name, 'kind': type(state).__name__, 'parent': statechart.parent_for(name),
+            'children': list(statechart.children_for(name)),
+            'initial': getattr(state, 'initial', None), 'memory': getattr(state, 'memory', None),
+        })
+    transitions = []
+    for t in statechart.transitions:
+        transitions.append({'id': id(t), 'source': t.source, 'target': t.target, 'event': t.event,
+                            'priority': t.priority, 'guarded': t.guard is not None})
+    return {'states': states, 'transitions': transitions}
+
+
+def step(macro_step) -> list:
+    if macro_step is None:
+        return []
+    out = []
+    for m in macro_step.steps:
+        out.append({
+            'event': None if m.event is None else m.event.name,
+            'internal': type(m.event).__name__ == 'InternalEvent',
+            'transition': None if m.transition is None else id(m.transition),
+            'entered': list(m.entered_states), 'exited': list(m.exited_states),
+            'sent': [{'name': e.name, 'cls': type(e).__name__, 'delay': e.data.get('delay', 0)}
+                     for e in m.sent_events],
+        })
+    return out
